@@ -22,6 +22,7 @@ import (
 // Accepting while that is false is a violation; tampering that leaves it true is benign.
 
 type proofCase struct {
+	reqTx uint64 // TransactionId of the request (0 = latest revision)
 	proof *protomodel.ProofDocumentResponse
 	doc   *structpb.Struct
 	state *schema.ImmutableState
@@ -160,9 +161,9 @@ func (s *scen) honestProof(d *mdoc, twin, rv int, since uint64) (proofCase, erro
 	}
 	p, err := s.dbe.proof(twinNames[twin], d.id[twin], tx, since)
 	if err != nil {
-		return proofCase{}, err
+		return proofCase{reqTx: tx}, err
 	}
-	pc := proofCase{proof: p, doc: withID(r.doc, d.id[twin])}
+	pc := proofCase{reqTx: tx, proof: p, doc: withID(r.doc, d.id[twin])}
 	if since > 0 {
 		pc.state, err = s.realState(since)
 		if err != nil {
@@ -208,7 +209,11 @@ func (s *scen) checkProof(d *mdoc) {
 			s.c.Distinct("proof|deleted-document|" + errClass(err))
 			return
 		}
-		s.viol("proof/honest-refused", fmt.Sprintf("ProofDocument(#%d revision %d of %s, since tx %d) failed: %v", d.n, rv+1, twinNames[twin], since, err))
+		cause := errClass(err)
+		if pc.reqTx == 0 && cause == "document-not-found" {
+			cause = "latest-revision-not-yet-indexed" // TransactionId 0 = latest revision: looked up without waiting for the index
+		}
+		s.viol("proof/honest-refused/"+cause, fmt.Sprintf("ProofDocument(#%d revision %d of %s written by tx %d, requested TransactionId %d, since tx %d) failed: %v", d.n, rv+1, twinNames[twin], d.revs[rv].tx[twin], pc.reqTx, since, err))
 		return
 	}
 	if s.collID[twin] == 0 {
